@@ -1,6 +1,7 @@
-(* Raptor relay: whole-history statements about cancel requests and about
-   masters that have gone -- what holds, and the two statements of C08 / C05
-   that the code as it is does not satisfy (witnesses by vm_compute). *)
+(* Raptor relay: whole-history statements about cancel requests (a request
+   naming a raptor task that has arrived and is not yet forwarded stops it) and
+   about masters that have gone (nothing waits for them; a task that arrives for
+   one is failed by the next drain). *)
 From Coq Require Import ZArith List Bool Arith Lia ZifyBool.
 From RP Require Import Relay.Model Relay.Oracle Relay.Lemmas Relay.Proofs.
 Import ListNotations.
@@ -34,7 +35,7 @@ Proof.
   pose proof (conservation _ u _ _ R) as C. rewrite n_arr_cancel_mid in C.
   pose proof (conservation _ u _ _ H1) as C1.
   pose proof (cancel_in_backlog s1 us) as K. rewrite H2 in K.
-  destruct K as [_ [_ [_ [[c [Hc [_ Hcnt]]] _]]]]. subst e2.
+  destruct K as [_ [_ [_ [_ [_ [[c [Hc [_ Hcnt]]] _]]]]]]. subst e2.
   specialize (Hcnt u Hu).
   assert (Hc1 : n_cancel u [OCancel c] = cnt u c) by (unfold n_cancel; simpl; lia).
   rewrite places_split in C. unfold ended in C.
@@ -43,86 +44,285 @@ Proof.
   unfold places in C1. lia.
 Qed.
 
-(* the part of "a named task is not processed later" that holds: a named task
-   that has arrived and is no longer on the scheduler queue when the request is
-   handled is never forwarded from then on *)
-Theorem cancel_stops_named_partial : forall ops1 us ops2 u s1 e1 s2 e2 s3 e3,
-  run init ops1 = (s1, e1) -> step s1 (Cancel us) = (s2, e2) -> run s2 ops2 = (s3, e3) ->
-  In u us -> n_arr u ops1 = 1%nat -> n_arr u ops2 = 0%nat -> n_inq u s1 = 0%nat ->
-  n_fwd u (e2 ++ e3) = 0%nat /\ tot u (backlog s3) = 0%nat.
+(* ---------------- a request that overtakes the task on the scheduler queue ---------------- *)
+(* u is on the scheduler queue, in no backlog, and its uid is on the cancel list *)
+Definition pend (u : Z) (s : state) : Prop :=
+  n_inq u s = 1%nat /\ tot u (backlog s) = 0%nat /\ zmem u (clist s) = true.
+
+Definition is_drain (o : op) : bool := match o with Drain => true | _ => false end.
+
+Lemma zmem_app : forall u a b, zmem u (a ++ b) = zmem u a || zmem u b.
+Proof. intros u a b; induction a as [|x a IH]; simpl; [reflexivity | rewrite IH, orb_assoc; reflexivity]. Qed.
+
+Lemma step_keeps_queue : forall u s o s' e,
+  step s o = (s', e) -> is_drain o = false ->
+  n_inq u s' = (n_inq u s + t_arr u (arrivals o))%nat /\ (zmem u (clist s) = true -> zmem u (clist s') = true).
 Proof.
-  intros ops1 us ops2 u s1 e1 s2 e2 s3 e3 H1 H2 H3 Hu Ha1 Ha2 Hq.
-  pose proof (run_cancel_split _ _ _ _ _ _ _ _ _ H1 H2 H3) as R.
-  pose proof (conservation _ u _ _ R) as C. rewrite n_arr_cancel_mid, n_arr_app in C.
-  pose proof (conservation _ u _ _ H1) as C1.
-  assert (R2 : run init (ops1 ++ [Cancel us]) = (s2, e1 ++ e2)).
-  { rewrite run_app, H1. cbn [run]. rewrite H2. rewrite app_nil_r. reflexivity. }
-  pose proof (conservation _ u _ _ R2) as C2. rewrite n_arr_app in C2.
-  pose proof (cancel_in_backlog s1 us) as K. rewrite H2 in K.
-  destruct K as [_ [Hi [_ [[c [Hc _]] [Hz _]]]]]. subst e2. specialize (Hz u Hu).
-  unfold places in *. unfold n_inq in *. rewrite Hi in C2.
-  rewrite !n_fwd_app, !n_fail_app, !n_cancel_app in *.
-  assert (n_arr u [Cancel us] = 0%nat) by reflexivity.
-  assert (n_fwd u [OCancel c] = 0%nat) by reflexivity.
-  lia.
+  intros u s o s' e H Hd. destruct o as [b| |n q|n|us]; simpl in H; try discriminate.
+  - injection H as <- <-. rewrite n_inq_arrive. simpl. auto.
+  - unfold register in H. destruct (relay_key q n (backlog s)) as [b1 o1].
+    destruct (relay_key q star b1) as [b2 o2]. injection H as <- <-. unfold n_inq; simpl. auto.
+  - unfold unregister in H.
+    destruct (alook n (queues s)); destruct (alook n (backlog s)); injection H as <- <-; unfold n_inq; simpl; auto.
+  - unfold cancel in H. destruct (cancel_walk us (backlog s)) as [bl c]. injection H as <- <-.
+    unfold n_inq; simpl. split; [lia|]. intros Hz. rewrite zmem_app, Hz. reflexivity.
 Qed.
 
-(* C08, "a named task that a component meets later is canceled there instead
-   of being processed", is FALSE of the relay: a request that is handled while
-   the task is still on the scheduler queue misses it (control_cb looks into the
-   backlog only, the _CANCEL item that it puts on the queue is applied to the
-   wait pool only), and _schedule_incoming then puts the task into the backlog
-   or forwards it without looking at the cancel list.  Witness: task 1 for
-   master 1 is put on the queue, the request for task 1 is handled, the queue
-   is drained, master 1 registers: task 1 is relayed to it, never canceled. *)
-Theorem cancel_stops_named_refuted :
-  exists ops1 us ops2 u s e,
-    run init (ops1 ++ Cancel us :: ops2) = (s, e) /\ In u us /\
-    n_arr u ops1 = 1%nat /\ n_arr u ops2 = 0%nat /\ n_fwd u (snd (run init ops1)) = 0%nat /\
-    n_fwd u e = 1%nat /\ n_cancel u e = 0%nat.
+Lemma pend_step : forall u s o s' e,
+  pend u s -> step s o = (s', e) -> is_drain o = false -> t_arr u (arrivals o) = 0%nat ->
+  pend u s' /\ ended u e = 0%nat.
 Proof.
-  exists [Arrive [mkT 1 (Some 1) false false]], [1], [Drain; Register 1 1], 1.
-  eexists. eexists. split; [vm_compute; reflexivity|].
-  vm_compute. repeat split; auto.
+  intros u s o s' e [P1 [P2 P3]] H Hd Ha.
+  destruct (step_keeps_queue u _ _ _ _ H Hd) as [Q1 Q2].
+  pose proof (step_conserve u _ _ _ _ H) as C. unfold waiting in C. unfold pend. rewrite Q1.
+  repeat split; try lia; try (apply Q2; exact P3).
+Qed.
+
+(* the drain that meets it cancels it -- exactly once, and does not forward, fail or cache it *)
+Lemma pend_drain : forall u s s' e,
+  pend u s -> step s Drain = (s', e) ->
+  n_cancel u e = 1%nat /\ n_fwd u e = 0%nat /\ n_fail u e = 0%nat /\ waiting u s' = 0%nat.
+Proof.
+  intros u s s' e [P1 [P2 P3]] H. simpl in H. unfold drain in H.
+  destruct (fwd_groups (queues s) (gone s) (backlog s) (clist s) (collect (concat (inq s)))) as [[bl cl] o] eqn:E.
+  injection H as <- <-.
+  destruct (fwd_groups_counts u _ _ _ _ _ _ _ _ E) as [A1 [A2 A3]].
+  rewrite collect_tot in A1, A2. unfold n_inq in P1. rewrite P1 in A1, A2.
+  rewrite zmem_cnt in P3. apply Nat.ltb_lt in P3.
+  pose proof (sched_tail_counts u (concat (inq s))) as T. unfold ended in T, A1.
+  rewrite n_cancel_app, n_fwd_app, n_fail_app. unfold waiting, n_inq. simpl. repeat split; lia.
+Qed.
+
+Lemma done_run : forall u ops s s' e,
+  run s ops = (s', e) -> waiting u s = 0%nat -> n_arr u ops = 0%nat -> ended u e = 0%nat /\ waiting u s' = 0%nat.
+Proof. intros u ops s s' e H Hw Ha. pose proof (run_conserve u _ _ _ _ H). lia. Qed.
+
+Lemma pend_run : forall u ops s s' e,
+  pend u s -> n_arr u ops = 0%nat -> run s ops = (s', e) ->
+  (pend u s' /\ ended u e = 0%nat /\ existsb is_drain ops = false)
+  \/ (n_cancel u e = 1%nat /\ n_fwd u e = 0%nat /\ n_fail u e = 0%nat /\ waiting u s' = 0%nat).
+Proof.
+  intros u ops; induction ops as [|o ops IH]; intros s s' e P Ha H; simpl in H.
+  - injection H as <- <-. left. auto.
+  - destruct (step s o) as [s1 o1] eqn:E1. destruct (run s1 ops) as [s2 o2] eqn:E2.
+    injection H as <- <-. rewrite n_arr_cons in Ha.
+    destruct (is_drain o) eqn:Ed.
+    + destruct o; try discriminate. destruct (pend_drain u _ _ _ P E1) as [D1 [D2 [D3 D4]]].
+      destruct (done_run u _ _ _ _ E2 D4 ltac:(lia)) as [F1 F2]. unfold ended in F1.
+      right. rewrite n_cancel_app, n_fwd_app, n_fail_app. repeat split; lia.
+    + destruct (pend_step u _ _ _ _ P E1 Ed ltac:(lia)) as [P1 Z1].
+      destruct (IH _ _ _ P1 ltac:(lia) E2) as [[Q1 [Q2 Q3]]|[Q1 [Q2 [Q3 Q4]]]].
+      * left. rewrite ended_app. simpl. rewrite Ed. simpl. split; [exact Q1 | split; [lia | exact Q3]].
+      * right. unfold ended in Z1. rewrite n_cancel_app, n_fwd_app, n_fail_app. repeat split; lia.
+Qed.
+
+(* C08 at the relay: a request naming a raptor task that has arrived -- it is on
+   the scheduler queue or in a backlog -- and that has not been forwarded (nor
+   failed or canceled) stops it: whatever preceded and whatever follows, the
+   task is never forwarded and never failed, and it is canceled exactly once --
+   by the request itself when it waits in a backlog, by the drain that meets it
+   when it is still on the scheduler queue; until that drain it stays on the
+   queue with its uid on the cancel list *)
+Theorem cancel_stops_arrived_task : forall ops1 us ops2 u s1 e1 s2 e2 s3 e3,
+  run init ops1 = (s1, e1) -> step s1 (Cancel us) = (s2, e2) -> run s2 ops2 = (s3, e3) ->
+  In u us -> n_arr u ops1 = 1%nat -> n_arr u ops2 = 0%nat -> ended u e1 = 0%nat ->
+  let e := e1 ++ e2 ++ e3 in
+  n_fwd u e = 0%nat /\ n_fail u e = 0%nat /\
+  ((n_cancel u e = 1%nat /\ waiting u s3 = 0%nat)
+   \/ (n_cancel u e = 0%nat /\ pend u s3 /\ existsb is_drain ops2 = false)).
+Proof.
+  intros ops1 us ops2 u s1 e1 s2 e2 s3 e3 H1 H2 H3 Hu Ha1 Ha2 He1 e. subst e.
+  pose proof (conservation _ u _ _ H1) as C1. rewrite places_split in C1.
+  pose proof (cancel_in_backlog s1 us) as K. rewrite H2 in K.
+  destruct K as [Kb [Ki [_ [Kc [_ [[c [Hc [_ Hcnt]]] [Hz _]]]]]]]. subst e2.
+  specialize (Hcnt u Hu). specialize (Hz u Hu).
+  assert (Hc1 : n_cancel u [OCancel c] = cnt u c) by (unfold n_cancel; simpl; lia).
+  assert (Hc2 : n_fwd u [OCancel c] = 0%nat) by reflexivity.
+  assert (Hc3 : n_fail u [OCancel c] = 0%nat) by reflexivity.
+  rewrite He1 in C1. unfold ended in He1.
+  rewrite !n_fwd_app, !n_fail_app, !n_cancel_app, Hc1, Hc2, Hc3.
+  assert (Hi2 : n_inq u s2 = n_inq u s1) by (unfold n_inq; rewrite Ki; reflexivity).
+  unfold waiting in C1.
+  destruct (Nat.eq_dec (tot u (backlog s1)) 0) as [Hb0|Hb1].
+  - (* on the scheduler queue *)
+    assert (P : pend u s2).
+    { unfold pend. rewrite Hi2, Hz, Kc, zmem_app. apply zmem_In in Hu. rewrite Hu, orb_true_r. repeat split; lia. }
+    destruct (pend_run u _ _ _ _ P Ha2 H3) as [[Q1 [Q2 Q3]]|[Q1 [Q2 [Q3 Q4]]]].
+    + unfold ended in Q2. split; [lia|]. split; [lia|]. right. split; [lia | split; [exact Q1 | exact Q3]].
+    + split; [lia|]. split; [lia|]. left. split; lia.
+  - (* in a backlog *)
+    assert (W2 : waiting u s2 = 0%nat) by (unfold waiting; lia).
+    destruct (done_run u _ _ _ _ H3 W2 Ha2) as [F1 F2]. unfold ended in F1.
+    split; [lia|]. split; [lia|]. left. split; lia.
+Qed.
+
+(* ... and some drain does meet it: if the history goes on with a drain, the
+   task has been canceled exactly once *)
+Theorem cancel_stops_arrived_task_drained : forall ops1 us ops2 u s1 e1 s2 e2 s3 e3,
+  run init ops1 = (s1, e1) -> step s1 (Cancel us) = (s2, e2) -> run s2 ops2 = (s3, e3) ->
+  In u us -> n_arr u ops1 = 1%nat -> n_arr u ops2 = 0%nat -> ended u e1 = 0%nat ->
+  existsb is_drain ops2 = true ->
+  n_cancel u (e1 ++ e2 ++ e3) = 1%nat /\ n_fwd u (e1 ++ e2 ++ e3) = 0%nat /\ n_fail u (e1 ++ e2 ++ e3) = 0%nat
+  /\ waiting u s3 = 0%nat.
+Proof.
+  intros ops1 us ops2 u s1 e1 s2 e2 s3 e3 H1 H2 H3 Hu Ha1 Ha2 He1 Hd.
+  destruct (cancel_stops_arrived_task _ _ _ _ _ _ _ _ _ _ H1 H2 H3 Hu Ha1 Ha2 He1) as [A [B [[C D]|[_ [_ F]]]]].
+  - auto.
+  - congruence.
 Qed.
 
 (* ---------------- masters that have gone ---------------- *)
 (* the last registration event of name n in the history is an unregistration *)
-Fixpoint gone (n : Z) (ops : list op) (g : bool) : bool :=
+Fixpoint gone_hist (n : Z) (ops : list op) (g : bool) : bool :=
   match ops with
   | [] => g
-  | Register m _ :: r => gone n r (if m =? n then false else g)
-  | Unregister m :: r => gone n r (if m =? n then true else g)
-  | _ :: r => gone n r g
+  | Register m _ :: r => gone_hist n r (if m =? n then false else g)
+  | Unregister m :: r => gone_hist n r (if m =? n then true else g)
+  | _ :: r => gone_hist n r g
   end.
 
-(* right after the unregistration nothing waits for the name ... *)
-Theorem unregistered_has_no_backlog : forall ops n s e,
-  run init (ops ++ [Unregister n]) = (s, e) -> absent n (backlog s) /\ absent n (queues s).
+Lemma bool_iff_eq : forall a b : bool, (a = true <-> b = true) -> a = b.
+Proof. intros [|] [|] [H1 H2]; auto; try (symmetry; auto); discriminate (H1 eq_refl) || discriminate (H2 eq_refl). Qed.
+
+Lemma zmem_gadd : forall n m g, zmem n (gadd m g) = (m =? n) || zmem n g.
 Proof.
-  intros ops n s e H. rewrite run_app in H.
-  destruct (run init ops) as [s1 e1] eqn:E1. cbn [run] in H.
-  pose proof (unregister_fails_exactly s1 n (reachable_inv _ _ _ E1)) as U.
-  destruct (step s1 (Unregister n)) as [s2 e2]. injection H as <- _. tauto.
+  intros n m g. apply bool_iff_eq. rewrite orb_true_iff, !zmem_In, In_gadd, Z.eqb_eq.
+  split; intros [H|H]; auto.
 Qed.
 
-(* ... but C05's "every task reaches a final state while its pilot is alive"
-   is FALSE for tasks that arrive for the name afterwards: unregistration fails
-   the backlog of that moment ("raptor gone"), yet the name is not remembered
-   as gone, so a later task for it is kept in a new backlog.  Witness: master 1
-   registers and unregisters, task 7 for master 1 arrives and is drained. *)
-Theorem gone_master_backlog_refuted :
-  exists ops n u s e,
-    run init ops = (s, e) /\ gone n ops false = true /\ In u (key_list n (backlog s)) /\ n_arr u ops = 1%nat.
+Lemma zmem_gdel : forall n m g, zmem n (gdel m g) = negb (m =? n) && zmem n g.
 Proof.
-  exists [Register 1 1; Unregister 1; Arrive [mkT 7 (Some 1) false false]; Drain], 1, 7.
-  eexists. eexists. split; [vm_compute; reflexivity|]. vm_compute. auto.
+  intros n m g. apply bool_iff_eq. rewrite andb_true_iff, negb_true_iff, !zmem_In, In_gdel, Z.eqb_neq.
+  split; intros [H1 H2]; split; auto.
 Qed.
 
-(* and it stays there: as long as the name is not registered or unregistered
-   again and no request names it, a task in the backlog of a name other than the
-   wildcard stays in that backlog -- whatever else arrives, is drained, registers
-   or unregisters *)
+Lemma step_gone : forall n s o s' e, step s o = (s', e) ->
+  zmem n (gone s') = match o with
+                     | Register m _ => if m =? n then false else zmem n (gone s)
+                     | Unregister m => if m =? n then true else zmem n (gone s)
+                     | _ => zmem n (gone s)
+                     end.
+Proof.
+  intros n s o s' e H. destruct o as [b| |m q|m|us]; simpl in H.
+  - injection H as <- <-. reflexivity.
+  - unfold drain in H. destruct (fwd_groups _ _ _ _ _) as [[bl cl] o]. injection H as <- <-. reflexivity.
+  - unfold register in H. destruct (relay_key q m (backlog s)) as [b1 o1].
+    destruct (relay_key q star b1) as [b2 o2]. injection H as <- <-. simpl. rewrite zmem_gdel.
+    destruct (m =? n); reflexivity.
+  - unfold unregister in H.
+    destruct (alook m (queues s)); destruct (alook m (backlog s)); injection H as <- <-; simpl; rewrite zmem_gadd;
+      destruct (m =? n); reflexivity.
+  - unfold cancel in H. destruct (cancel_walk us (backlog s)) as [bl c]. injection H as <- <-. reflexivity.
+Qed.
+
+Lemma run_gone : forall n ops s s' e, run s ops = (s', e) -> zmem n (gone s') = gone_hist n ops (zmem n (gone s)).
+Proof.
+  intros n ops; induction ops as [|o ops IH]; intros s s' e H; simpl in H.
+  - injection H as <- <-. reflexivity.
+  - destruct (step s o) as [s1 o1] eqn:E1. destruct (run s1 ops) as [s2 o2] eqn:E2. injection H as <- <-.
+    rewrite (IH _ _ _ E2), (step_gone n _ _ _ _ E1). destruct o; reflexivity.
+Qed.
+
+(* C05 at the relay: for every history, nothing waits for a master that has
+   unregistered (and that master is not registered) *)
+Theorem no_wait_for_gone_master : forall ops n s e,
+  run init ops = (s, e) -> gone_hist n ops false = true -> absent n (backlog s) /\ absent n (queues s).
+Proof.
+  intros ops n s e H Hg. pose proof (run_gone n _ _ _ _ H) as G. simpl in G. rewrite Hg in G.
+  apply zmem_In in G. destruct (reachable_inv _ _ _ H) as [_ _ _ _ Hb Hq]. auto.
+Qed.
+
+(* a drain sorts the raptor tasks by name: what it handles under name n is the
+   raptor tasks for n on the scheduler queue, in order *)
+Definition for_name (n : Z) (ts : list task) : list Z :=
+  flat_map (fun t => match relayed t with Some m => if m =? n then [t_uid t] else [] | None => [] end) ts.
+Definition merge (a : option (list Z)) (l : list Z) : option (list Z) :=
+  match a, l with
+  | None, [] => None
+  | None, _ => Some l
+  | Some x, _ => Some (x ++ l)
+  end.
+
+Lemma collect_look_gen : forall n ts g,
+  alook n (fold_left (fun g t => match relayed t with Some m => aext m [t_uid t] g | None => g end) ts g)
+  = merge (alook n g) (for_name n ts).
+Proof.
+  intros n ts; induction ts as [|t ts IH]; intros g; simpl.
+  - destruct (alook n g); simpl; [rewrite app_nil_r|]; reflexivity.
+  - rewrite IH. unfold for_name. simpl. fold (for_name n ts). destruct (relayed t) as [m|]; [|reflexivity].
+    unfold aext. rewrite alook_aset. destruct (m =? n) eqn:E.
+    + apply Z.eqb_eq in E; subst m. destruct (alook n g); simpl; [rewrite <- app_assoc|]; reflexivity.
+    + reflexivity.
+Qed.
+
+Theorem drain_sorts_by_name : forall n ts,
+  alook n (collect ts) = match for_name n ts with [] => None | l => Some l end.
+Proof. intros. unfold collect. rewrite collect_look_gen. simpl. destruct (for_name n ts); reflexivity. Qed.
+
+(* the tasks a drain has collected for a master that has unregistered (which is
+   then not registered; for the wildcard: while no queue is registered) are
+   failed -- those that a cancel request named are canceled instead -- and
+   nothing is kept for it *)
+Theorem gone_group_fails : forall qs gn bl cl n us,
+  alook n qs = None -> zmem n gn = true -> (is_nil qs || negb (n =? star)) = true ->
+  fwd_group qs gn bl cl n us = let '(k, cl', o0) := sift cl us in (bl, cl', o0 ++ map OFail k).
+Proof.
+  intros qs gn bl cl n us Hq Hg Hs. unfold fwd_group. destruct (sift cl us) as [[k cl'] o0].
+  destruct (is_nil k) eqn:Ek.
+  - destruct k; [|discriminate]. simpl. rewrite app_nil_r. reflexivity.
+  - rewrite Hq, Hg. destruct (negb (is_nil qs) && (n =? star)) eqn:E; [|reflexivity].
+    apply andb_true_iff in E. destruct E as [E1 E2]. rewrite E2 in Hs. destruct (is_nil qs); discriminate.
+Qed.
+
+(* what still waits waits for a master that has never registered nor
+   unregistered (or, under the wildcard, for any master while none is registered) *)
+Definition touched (n : Z) (ops : list op) : bool :=
+  existsb (fun o => match o with Register m _ | Unregister m => m =? n | _ => false end) ops.
+Definition known (n : Z) (s : state) : Prop := alook n (queues s) <> None \/ In n (gone s).
+
+Lemma step_known : forall n s o s' e, step s o = (s', e) ->
+  known n s \/ (match o with Register m _ | Unregister m => m =? n | _ => false end) = true -> known n s'.
+Proof.
+  intros n s o s' e H K. unfold known in *. destruct o as [b| |m q|m|us]; simpl in H.
+  - injection H as <- <-. simpl. destruct K as [K|K]; [exact K | discriminate].
+  - unfold drain in H. destruct (fwd_groups _ _ _ _ _) as [[bl cl] o]. injection H as <- <-. simpl.
+    destruct K as [K|K]; [exact K | discriminate].
+  - unfold register in H. destruct (relay_key q m (backlog s)) as [b1 o1].
+    destruct (relay_key q star b1) as [b2 o2]. injection H as <- <-. simpl. rewrite alook_aset.
+    destruct (m =? n) eqn:E; [left; congruence|].
+    destruct K as [[K|K]|K]; [left; exact K | right; apply In_gdel; split; [lia | exact K] | discriminate].
+  - assert (G : In n (gadd m (gone s)) \/ (m <> n /\ alook n (queues s) <> None)).
+    { destruct (m =? n) eqn:E; [left; apply In_gadd; left; lia|].
+      destruct K as [[K|K]|K]; [right; split; [lia | exact K] | left; apply In_gadd; right; exact K | discriminate]. }
+    unfold unregister in H.
+    destruct (alook m (queues s)) eqn:Eq; destruct (alook m (backlog s)); injection H as <- <-; simpl;
+      (destruct G as [G|[G1 G2]]; [right; exact G | left; rewrite ?alook_adel_other by auto; exact G2]).
+  - unfold cancel in H. destruct (cancel_walk us (backlog s)) as [bl c]. injection H as <- <-. simpl.
+    destruct K as [K|K]; [exact K | discriminate].
+Qed.
+
+Lemma run_known : forall n ops s s' e, run s ops = (s', e) -> known n s \/ touched n ops = true -> known n s'.
+Proof.
+  intros n ops; induction ops as [|o ops IH]; intros s s' e H K; simpl in H.
+  - injection H as <- <-. destruct K as [K|K]; [exact K | discriminate].
+  - destruct (step s o) as [s1 o1] eqn:E1. destruct (run s1 ops) as [s2 o2] eqn:E2. injection H as <- <-.
+    apply (IH _ _ _ E2). unfold touched in K. simpl in K. rewrite orb_true_iff in K.
+    destruct K as [K|[K|K]]; [left; eapply step_known; eauto | left; eapply step_known; eauto | right; exact K].
+Qed.
+
+Theorem waits_only_for_unknown_master : forall ops n s e,
+  run init ops = (s, e) -> alook n (backlog s) <> None -> touched n ops = false.
+Proof.
+  intros ops n s e H Hw. destruct (touched n ops) eqn:T; [|reflexivity]. exfalso. apply Hw.
+  destruct (run_known n _ _ _ _ H (or_intror T)) as [K|K];
+    destruct (reachable_inv _ _ _ H) as [_ _ Hr _ Hgb _]; [apply Hr; exact K | apply Hgb; exact K].
+Qed.
+
+(* such a task keeps waiting: as long as the name is not registered or
+   unregistered and no request names it, a task in the backlog of a name other
+   than the wildcard stays in that backlog -- whatever else arrives, is drained,
+   registers or unregisters.  This is the part of "reaches a final state" which
+   the relay leaves to the application: the master it named has to come. *)
 Definition leaves_alone (n : Z) (o : op) : bool :=
   match o with
   | Arrive _ | Drain => true
@@ -130,27 +330,30 @@ Definition leaves_alone (n : Z) (o : op) : bool :=
   | Cancel _ => false
   end.
 
-Lemma fwd_group_keeps : forall qs bl k us bl' o n l,
-  fwd_group qs bl k us = (bl', o) -> alook n bl = Some l -> exists l', alook n bl' = Some (l ++ l').
+Lemma fwd_group_keeps : forall qs gn bl cl k us bl' cl' o n l,
+  fwd_group qs gn bl cl k us = (bl', cl', o) -> alook n bl = Some l -> exists l', alook n bl' = Some (l ++ l').
 Proof.
-  intros qs bl k us bl' o n l H Hl. unfold fwd_group in H.
-  destruct (alook k qs); [injection H as <- <-; exists []; rewrite app_nil_r; exact Hl|].
-  destruct (negb (is_nil qs) && (k =? star)); injection H as <- <-;
-    [exists []; rewrite app_nil_r; exact Hl|].
+  intros qs gn bl cl k us bl' cl' o n l H Hl. unfold fwd_group in H.
+  destruct (sift cl us) as [[kept c1] o0].
+  assert (Same : exists l', alook n bl = Some (l ++ l')) by (exists []; rewrite app_nil_r; exact Hl).
+  destruct (is_nil kept); [injection H as <- <- <-; exact Same|].
+  destruct (alook k qs); [injection H as <- <- <-; exact Same|].
+  destruct (negb (is_nil qs) && (k =? star)); [injection H as <- <- <-; exact Same|].
+  destruct (zmem k gn); injection H as <- <- <-; [exact Same|].
   unfold aext. rewrite alook_aset. destruct (k =? n) eqn:E.
-  - apply Z.eqb_eq in E; subst k. rewrite Hl. exists us. reflexivity.
-  - exists []. rewrite app_nil_r. exact Hl.
+  - apply Z.eqb_eq in E; subst k. rewrite Hl. exists kept. reflexivity.
+  - exact Same.
 Qed.
 
-Lemma fwd_groups_keeps : forall qs g bl bl' o n l,
-  fwd_groups qs bl g = (bl', o) -> alook n bl = Some l -> exists l', alook n bl' = Some (l ++ l').
+Lemma fwd_groups_keeps : forall qs gn g bl cl bl' cl' o n l,
+  fwd_groups qs gn bl cl g = (bl', cl', o) -> alook n bl = Some l -> exists l', alook n bl' = Some (l ++ l').
 Proof.
-  intros qs g; induction g as [|[k us] g IH]; intros bl bl' o n l H Hl; simpl in H.
-  - injection H as <- <-. exists []. rewrite app_nil_r. exact Hl.
-  - destruct (fwd_group qs bl k us) as [bl1 o1] eqn:E1.
-    destruct (fwd_groups qs bl1 g) as [bl2 o2] eqn:E2. injection H as <- <-.
-    destruct (fwd_group_keeps _ _ _ _ _ _ _ _ E1 Hl) as [l1 H1].
-    destruct (IH _ _ _ _ _ E2 H1) as [l2 H2]. exists (l1 ++ l2). rewrite app_assoc. exact H2.
+  intros qs gn g; induction g as [|[k us] g IH]; intros bl cl bl' cl' o n l H Hl; simpl in H.
+  - injection H as <- <- <-. exists []. rewrite app_nil_r. exact Hl.
+  - destruct (fwd_group qs gn bl cl k us) as [[bl1 cl1] o1] eqn:E1.
+    destruct (fwd_groups qs gn bl1 cl1 g) as [[bl2 cl2] o2] eqn:E2. injection H as <- <- <-.
+    destruct (fwd_group_keeps _ _ _ _ _ _ _ _ _ _ _ E1 Hl) as [l1 H1].
+    destruct (IH _ _ _ _ _ _ _ E2 H1) as [l2 H2]. exists (l1 ++ l2). rewrite app_assoc. exact H2.
 Qed.
 
 Lemma step_keeps : forall s o s' e n l,
@@ -160,7 +363,7 @@ Proof.
   intros s o s' e n l H Ho Hn Hl. destruct o as [b| |m q|m|us]; simpl in H, Ho; try discriminate.
   - injection H as <- <-. exists []. rewrite app_nil_r. exact Hl.
   - unfold drain in H.
-    destruct (fwd_groups (queues s) (backlog s) (collect (concat (inq s)))) as [bl o] eqn:E.
+    destruct (fwd_groups (queues s) (gone s) (backlog s) (clist s) (collect (concat (inq s)))) as [[bl cl] o] eqn:E.
     injection H as <- <-. simpl. eapply fwd_groups_keeps; eauto.
   - unfold register, relay_key in H. exists []. rewrite app_nil_r.
     assert (Hm : n <> m) by lia.
@@ -192,8 +395,12 @@ Qed.
 Theorem reachable_spec : forall ops s e, run init ops = (s, e) ->
   NoDup (map fst (backlog s)) /\ NoDup (map fst (queues s)) /\
   (forall n, alook n (queues s) <> None -> alook n (backlog s) = None) /\
-  (queues s <> [] -> alook star (backlog s) = None).
-Proof. intros ops s e H. destruct (reachable_inv ops s e H) as [A B C D]. exact (conj A (conj B (conj C D))). Qed.
+  (queues s <> [] -> alook star (backlog s) = None) /\
+  (forall n, In n (gone s) -> alook n (backlog s) = None /\ alook n (queues s) = None).
+Proof.
+  intros ops s e H. destruct (reachable_inv ops s e H) as [A B C D E F].
+  exact (conj A (conj B (conj C (conj D (fun n Hn => conj (E n Hn) (F n Hn)))))).
+Qed.
 
 Theorem register_relays_all_hist : forall ops s0 e0 n q, run init ops = (s0, e0) ->
   let '(s', e) := step s0 (Register n q) in
@@ -202,7 +409,8 @@ Theorem register_relays_all_hist : forall ops s0 e0 n q, run init ops = (s0, e0)
   /\ backlog s' = without [n; star] (backlog s0)
   /\ alook n (backlog s') = None /\ alook star (backlog s') = None
   /\ (forall k, k <> n -> k <> star -> alook k (backlog s') = alook k (backlog s0))
-  /\ inq s' = inq s0 /\ alook n (queues s') = Some q.
+  /\ inq s' = inq s0 /\ alook n (queues s') = Some q
+  /\ gone s' = gdel n (gone s0) /\ clist s' = clist s0.
 Proof. intros ops s0 e0 n q H. exact (register_relays_all s0 n q (reachable_inv ops s0 e0 H)). Qed.
 
 Theorem unregister_fails_exactly_hist : forall ops s0 e0 n, run init ops = (s0, e0) ->
@@ -211,5 +419,5 @@ Theorem unregister_fails_exactly_hist : forall ops s0 e0 n, run init ops = (s0, 
   /\ backlog s' = without [n] (backlog s0) /\ queues s' = without [n] (queues s0)
   /\ alook n (backlog s') = None /\ alook n (queues s') = None
   /\ (forall k, k <> n -> alook k (backlog s') = alook k (backlog s0))
-  /\ inq s' = inq s0.
+  /\ inq s' = inq s0 /\ gone s' = gadd n (gone s0) /\ clist s' = clist s0.
 Proof. intros ops s0 e0 n H. exact (unregister_fails_exactly s0 n (reachable_inv ops s0 e0 H)). Qed.
